@@ -42,6 +42,12 @@ def _cond_sig(p):
                 out[t] = None
             else:
                 out.setdefault(t, pol)
+    # what follows from what: None is falsy, and what is truthy is not None
+    for t, pol in list(out.items()):
+        if t.startswith("cmp:Is(") and t.endswith(",Const(None))") and pol is True:
+            out.setdefault(t[len("cmp:Is("):-len(",Const(None))")], False)
+        elif pol is True and not t.startswith(("cmp:", "call:", "unop:", "and(", "or(")):
+            out.setdefault(f"cmp:Is({t},Const(None))", False)
     return out
 
 
@@ -177,10 +183,12 @@ def rule_KC(run: Run) -> RuleResult:
         # (5) what evaluate attempts whatever happens is attempted by keys: a keys path taken on grounds that evaluate does not
         # look at (a short cut for "the dispatch option is absent") must still ask — or evaluate — every part that every
         # compatible evaluate path begins with, because the outcome of that attempt is what selects the rest
-        def attempted(path, ops):
+        def attempted(path, ops, always=False):
             out_ = set()
             for e in path.events:
                 if e.kind == "op" and e.op in ops and isinstance(e.target, Child):
+                    if always and (e.whole or e.in_comp):
+                        continue        # once per element of a collection: not at all when the collection is empty
                     out_.add(e.target.path)
             return out_
         for k in kpaths:
@@ -191,9 +199,19 @@ def rule_KC(run: Run) -> RuleResult:
                 continue
             must = None
             for e_ in comp:
-                a_ = attempted(e_, ("evaluate",))
+                a_ = attempted(e_, ("evaluate",), always=True)
                 must = a_ if must is None else (must & a_)
-            missing = sorted((must or set()) - attempted(k, ("keys", "evaluate", "validate")) - {"<self>"})
+            # (elements of a collection are attempted once per element: none when it is empty — the multiset rule (4) covers them)
+            must = {c_ for c_ in (must or set()) if "[*]" not in c_}
+            # an Option whose key is absent and which has no default cannot be evaluated (Option.evaluate, R-AB): a path that
+            # established exactly that about a part knows the attempt fails, and may skip it
+            sig_k = _cond_sig(k)
+            for c_ in list(must):
+                absent = any(t_.endswith(f"dotted_key_exists(Child({c_}.key),options)") and pol_ is False for t_, pol_ in sig_k.items())
+                no_default = sig_k.get(f"cmp:Is(Child({c_}.default),Const(MISSING))") is True
+                if absent and no_default:
+                    must.discard(c_)
+            missing = sorted(must - attempted(k, ("keys", "evaluate", "validate")) - {"<self>"})
             for c in missing:
                 if c not in bad:
                     bad.add(c)
@@ -453,6 +471,11 @@ def rule_VO(run: Run) -> RuleResult:
                         # (facts about one element of a collection say nothing about the object as a whole)
                         sq = {t: pol for t, pol in _cond_sig(q).items() if pol is not None and t not in sp and "elem(" not in t and "[*]" not in t
                               and _about_object(t)}
+                        # an empty collection has no elements: "the collection is falsy" is no situation in which an element is consulted
+                        if "[*]" in c:
+                            base_ = c.split("[*]")[0]
+                            sq = {t: pol for t, pol in sq.items() if not (t == f"Child({base_})" and pol is False)
+                                  and not (t in (f"call:len(Child({base_}))", f"cmp:Eq(call:len(Child({base_})),Const(0))"))}
                         if not sq:
                             continue
 
